@@ -102,6 +102,9 @@ pub fn run(o: &Opts, out: &mut dyn Write) {
         let nl: Vec<usize> = d.iter().enumerate().filter(|(_, &b)| b == b'\n').map(|(i, _)| i).take(6).collect();
         let mut bss: Vec<usize> = vec![64, 65, 64 + rng.below(64), 128, 100 + rng.below(400), 0x10000];
         for p in nl { for x in [p, p + 1, p + 3, p + 17] { if x >= 64 { bss.push(x); } } }
+        // a newline exactly on the last byte of block zero: always tried
+        let edges: Vec<usize> = d.iter().enumerate().filter(|(_, &b)| b == b'\n').map(|(i, _)| i + 1).filter(|&x| x >= 64).take(5).collect();
+        for bs in edges { emit(out, bs, &d, "n", "n"); }
         for _ in 0..3 {
             let bs = rng.pick(&bss);
             let (a, b) = match rng.below(4) {
